@@ -389,3 +389,68 @@ def lemma_vertical_context(reg, repo):
 
 
 lemma_vertical_context.target = QUAL
+
+
+# ----------------------------------------------------------------------------------------------------------------------
+# the lexicon block (the `else` branch: a token)
+# ----------------------------------------------------------------------------------------------------------------------
+def lemma_lexicon(reg, repo):
+    """lexicon[word][tag] grows by exactly one for the token's word and tag (0 when absent before), a word that was
+    unknown gets a fresh table, and no other (word, tag) count changes"""
+    from pyvc.sym import VMap, VKey, KeyS, _sel, key_term
+    info = repo.fns.get(QUAL)
+    if info is None:
+        raise Unsupported("function %s no longer exists" % QUAL)
+    block = None
+    for node in ast.walk(info.node):
+        if isinstance(node, ast.If) and "trees.has_children(subtree)" in ast.unparse(node.test) and node.orelse \
+                and any("lexicon" in ast.unparse(s) for s in node.orelse):
+            block = node.orelse
+    if block is None:
+        raise Unsupported("the lexicon block of extract was not found (the contract no longer binds)")
+    from contracts.common import add_common
+    add_common(reg)
+    c = Contract(target=QUAL, prop="C06", args={}, loops={})
+    ex = Exec(repo, reg, info, c, prefix="C06.lexicon")
+    H = Heap.fresh("L")
+    st = State(heap=H)
+    for t in H.typing():
+        st.assume(t)
+    sub = VRef(z3.Int(fresh_name("l_subtree")))
+    st.assume(sub.t != 0)
+    # a token with a word and a tag (strings)
+    for k in ("word", "label"):
+        st.assume(z3.Select(H.f["has_" + k], sub.t))
+        st.assume(z3.Not(z3.Select(H.f["none_" + k], sub.t)))
+    m0 = VMap.fresh(2, "lexicon")
+    st.env.update(dict(subtree=sub, lexicon=m0))
+    ex.entry_heap = H.copy()
+    ex.obligations = []
+    outs = ex._with_raises(st, ex.exec_block(block, st))
+    vcs = []
+    w = key_term(VStr(z3.Select(H.f["val_word"], sub.t)))
+    t = key_term(VStr(z3.Select(H.f["val_label"], sub.t)))
+    x, y = z3.Const(fresh_name("lx"), KeyS), z3.Const(fresh_name("ly"), KeyS)
+    for oi, o in enumerate(outs):
+        if o.kind != "normal":
+            raise Unsupported("the lexicon block has an exceptional exit (%s)" % (o.exc,))
+        m1 = o.st.env["lexicon"]
+
+        def entry(m, k1, k2):
+            return z3.And(_sel(m.pres[0], [k1]), _sel(m.pres[1], [k1, k2]))
+        old = z3.If(entry(m0, w, t), _sel(m0.val, [w, t]), 0)
+        goals = {
+            "count_of_this_word_and_tag_grows_by_one": z3.And(entry(m1, w, t), _sel(m1.val, [w, t]) == old + 1),
+            "no_other_count_changes": z3.ForAll([x, y], z3.Implies(
+                z3.Not(z3.And(x == w, y == t)),
+                z3.And(entry(m1, x, y) == entry(m0, x, y),
+                       z3.Implies(entry(m0, x, y), _sel(m1.val, [x, y]) == _sel(m0.val, [x, y]))))),
+        }
+        for gname, g in goals.items():
+            vcs.append(("path%d.%s" % (oi, gname), list(o.st.pc), g))
+    for ob in ex.obligations:
+        vcs.append(("step.%s" % ob.name.split(".", 2)[-1], list(ob.pc), ob.goal))
+    return vcs
+
+
+lemma_lexicon.target = QUAL
